@@ -6,6 +6,7 @@ import (
 	"fmt"
 	"math"
 	"strings"
+	"sync"
 	"testing"
 	"time"
 
@@ -20,7 +21,7 @@ import (
 	"verif/harness/sm"
 )
 
-const ruleC10 = "triples (a, b, c) of values drawn from boundary-rich pools (wide regime: integers of any magnitude incl. int64/uint64 extremes, no floats; mixed regime: |n| <= 2^53 with floats incl. -0.0, +-Inf, +-MaxFloat64, denormals), strings with 0x00/0xFF bytes and prefix relations, nested arrays/objects, empty containers, times 1678..2262 and far beyond (year 1, 1066, 1600, 2300, 9999) in several zones; b and c are frequently derived from a (same number in another kind, neighbours, prefixes/extensions, same instant in another zone). Oracles: (1) sign of clover's comparison - read off Field(f).Gt/Lt/Eq/GtEq/LtEq(b).Satisfy({f:a}) - equals the reference comparator; (2) reflexive, sign-antisymmetric, transitive on the triple; (3) for numbers within 2^53 and times from 1970: sign(bytes.Compare(K(a),K(b))) = sign(cmp(a,b)) with K the key bytes index.Add writes (recording transaction), equal values <=> identical keys. An evaluation is one triple; non-trivial when two of the values are distinct values of the same type rank, or a numeric cross-kind pair, or the triple spans >= 2 ranks; distinct = distinct triples."
+const ruleC10 = "triples (a, b, c) of values drawn from boundary-rich pools (wide regime: integers of any magnitude incl. int64/uint64 extremes, no floats; mixed regime: |n| <= 2^53 with floats incl. -0.0, +-Inf, +-MaxFloat64, denormals), strings with 0x00/0xFF bytes and prefix relations, nested arrays/objects, empty containers, times 1678..2262 and far beyond (year 1, 1066, 1600, 2300, 9999) in several zones; b and c are frequently derived from a (same number in another kind, neighbours, prefixes/extensions, same instant in another zone). Oracles: (1) sign of clover's comparison - read off Field(f).Gt/Lt/Eq/GtEq/LtEq(b).Satisfy({f:a}) - equals the reference comparator; (2) reflexive, sign-antisymmetric, transitive on the triple; (3) for numbers within 2^53 and times from 1970: sign(bytes.Compare(K(a),K(b))) = sign(cmp(a,b)) with K the key bytes index.Add writes (recording transaction), equal values <=> identical keys. An evaluation is one triple; non-trivial when two of the values are distinct values of the same type rank, or a numeric cross-kind pair, or the triple spans >= 2 ranks; distinct = distinct triples. Two further parts: the same comparisons issued by 2-8 goroutines at once must give the same signs; and index range scans over real transactions, with collection/field names of 1-12 / 1-72 bytes, must deliver exactly the entries the comparison puts inside the range."
 
 type c10Case struct {
 	A, B, C cs.V
@@ -145,6 +146,21 @@ func c10Body(c *c10Case) string {
 }
 
 func init() {
+	replayers["c10conc"] = func(raw json.RawMessage) *sm.Fail {
+		var c struct {
+			Pairs   [][2]cs.V `json:"pairs"`
+			Workers int       `json:"workers"`
+		}
+		if err := json.Unmarshal(raw, &c); err != nil {
+			return &sm.Fail{Property: "C10", Clause: "replay", Detail: err.Error()}
+		}
+		for i := 0; i < 20; i++ {
+			if f := concurrentCompare(c.Pairs, c.Workers); f != nil {
+				return f
+			}
+		}
+		return nil
+	}
 	replayers["c10"] = func(raw json.RawMessage) *sm.Fail {
 		var c c10Case
 		if err := json.Unmarshal(raw, &c); err != nil {
@@ -189,7 +205,112 @@ func keyDomain(v interface{}) bool {
 	return true
 }
 
+// concurrentCompare: the comparison must give the same answers when several goroutines
+// compare at the same time (no shared scratch state).
+func concurrentCompare(pairs [][2]cs.V, workers int) *sm.Fail {
+	want := make([]int, len(pairs))
+	for i, p := range pairs {
+		want[i] = model.Cmp(p[0].X, p[1].X)
+	}
+	fails := make([]*sm.Fail, workers)
+	var wg sync.WaitGroup
+	for g := 0; g < workers; g++ {
+		wg.Add(1)
+		go func(g int) {
+			defer wg.Done()
+			out := run.Guard(func(o *cs.Outcome) {
+				for round := 0; round < 30 && fails[g] == nil; round++ {
+					for i, p := range pairs {
+						got, msg := cloverSign(p[0].X, p[1].X)
+						if msg != "" || got != want[i] {
+							fails[g] = &sm.Fail{Property: "C10", Clause: "concurrent-compare", Detail: fmt.Sprintf("with %d goroutines comparing at once: compare(%s, %s) = %d %s, reference %d", workers, cs.Show(p[0].X), cs.Show(p[1].X), got, msg, want[i])}
+							return
+						}
+					}
+				}
+			})
+			if out.Err != "" {
+				fails[g] = &sm.Fail{Property: "C20", Clause: "no-panic-no-hang", Detail: "concurrent comparison: " + out.Err}
+			}
+		}(g)
+	}
+	wg.Wait()
+	for _, f := range fails {
+		if f != nil {
+			return f
+		}
+	}
+	return nil
+}
+
 func TestC10(t *testing.T) {
+	t.Run("triples", testC10Triples)
+	t.Run("concurrent", func(t *testing.T) {
+		col := collector("C10", ruleC10)
+		cfg := gen.ValCfg{NonUTF8: true, MaxDepth: 1}
+		check(t, "C10", cases(150, 4000), 0, func(rt *rapid.T) {
+			n := rapid.IntRange(4, 24).Draw(rt, "npairs")
+			pairs := make([][2]cs.V, n)
+			for i := range pairs {
+				a := noDollar(gen.Value(cfg, 1).Draw(rt, "a"))
+				b := noDollar(gen.Near(cfg, a).Draw(rt, "b"))
+				pairs[i] = [2]cs.V{{X: a}, {X: b}}
+			}
+			w := rapid.IntRange(2, 8).Draw(rt, "workers")
+			if f := concurrentCompare(pairs, w); f != nil {
+				violate(rt, "C10", "c10conc", map[string]interface{}{"pairs": pairs, "workers": w}, f)
+			}
+			col.Case(true, hashOf(pairs, w), func() interface{} {
+				return map[string]interface{}{"mode": "concurrent comparisons", "pairs": n, "workers": w}
+			}, "concurrent")
+		})
+	})
+	t.Run("scan-agrees", func(t *testing.T) {
+		// "an index range scan and a comparison-based filter always agree": range scans over real
+		// transactions with index names of every length (the C17 case runner with generated names)
+		col := collector("C10", ruleC10)
+		vcfg := gen.ValCfg{MaxDepth: 1, NonUTF8: true}
+		check(t, "C10", cases(400, 10000), 0, func(rt *rapid.T) {
+			c := &c17Case{Backend: rapid.SampledFrom([]string{run.Bbolt, run.BadgerMem}).Draw(rt, "backend"),
+				Coll: strings.Repeat("k", rapid.IntRange(1, 12).Draw(rt, "colllen")), Field: strings.Repeat("f", rapid.IntRange(1, 72).Draw(rt, "fieldlen"))}
+			npal := rapid.IntRange(2, 6).Draw(rt, "npalette")
+			palette := make([]interface{}, npal)
+			for i := range palette {
+				palette[i] = noDollar(gen.Value(vcfg, 1).Draw(rt, "pal"))
+			}
+			for i := rapid.IntRange(2, 12).Draw(rt, "nentries"); i > 0; i-- {
+				c.Values = append(c.Values, cs.V{X: cs.Clone(rapid.SampledFrom(palette).Draw(rt, "val"))})
+			}
+			for i := 0; i < 3; i++ {
+				r := c17Range{Start: cs.V{X: cs.Clone(rapid.SampledFrom(palette).Draw(rt, "start"))}, End: cs.V{X: cs.Clone(rapid.SampledFrom(palette).Draw(rt, "end"))},
+					StartInc: rapid.Bool().Draw(rt, "si"), EndInc: rapid.Bool().Draw(rt, "ei")}
+				if r.Start.X == nil {
+					r.StartInc = false
+				}
+				if r.End.X == nil {
+					r.EndInc = false
+				}
+				if r.Start.X == nil && r.End.X == nil {
+					r.StartInc, r.EndInc = true, true
+				}
+				c.Ranges = append(c.Ranges, r)
+				c.Reverse = append(c.Reverse, rapid.Bool().Draw(rt, "reverse"))
+				c.StopAt = append(c.StopAt, 0)
+			}
+			if f := runC17(c); f != nil {
+				if f.Property == "C17" {
+					f.Property = "C10"
+				}
+				violate(rt, "C10", "c17", c, f)
+			}
+			col.Case(true, hashOf(c), func() interface{} {
+				return map[string]interface{}{"mode": "range scan vs comparison", "field_name_len": len(c.Field), "entries": len(c.Values)}
+			}, "scan-agrees")
+		})
+	})
+}
+
+func testC10Triples(t *testing.T) {
 	col := collector("C10", ruleC10)
 	check(t, "C10", cases(40000, 2000000), 0, func(rt *rapid.T) {
 		wide := rapid.IntRange(0, 2).Draw(rt, "wide") == 0
